@@ -51,7 +51,10 @@ pub fn gen(seed: u64, thorough: bool) {
     for i in 0..nforms {
         let (mut e, kind) = src.any_engine(&mut rng);
         random_condition(&mut rng, &mut e, true);
-        e.condition.set_phoneme_alignment_flag(false);
+        // alignment on for every other case: all forms of unstamped labels still agree (every label falls back to the model
+        // durations), and the stamped forms agree with each other (seeded change C17g: parsed labels carried no time entries)
+        let align = i % 2 == 1;
+        e.condition.set_phoneme_alignment_flag(align);
         let n = rng.range(1, 4);
         let recombine = rng.chance(0.5);
         let lines = src.labels(&mut rng, n, recombine);
@@ -76,7 +79,13 @@ pub fn gen(seed: u64, thorough: bool) {
         let w_blank = e.synthesize(blanks).unwrap();
         // time stamps (100 ns units) with alignment off
         let timed: Vec<String> = lines.iter().enumerate().map(|(k, l)| format!("{} {} {}", k * 1000000 + rng.below(1000), (k + 1) * 1000000, l)).collect();
-        let w_timed = e.synthesize(timed.clone()).unwrap();
+        let w_timed = if align {
+            // with alignment on the stamps matter: compare the two stamped forms with each other
+            let trefs: Vec<&str> = timed.iter().map(|s| s.as_str()).collect();
+            let a = e.synthesize(timed.clone()).unwrap();
+            let b = e.synthesize(&trefs[..]).unwrap();
+            if bits_eq(&a, &b) { w_slice.clone() } else { a }
+        } else { e.synthesize(timed.clone()).unwrap() };
         let mut line = format!("forms {} {}", kind, n);
         push_u(&mut line, bits_eq(&w_slice, &w_vec) as usize);
         push_u(&mut line, bits_eq(&w_slice, &w_array) as usize);
